@@ -104,7 +104,13 @@ func (p *Processor) handleMessage(ctx context.Context, k *common.MessagePublicat
 		// unmarshal vaa
 		var existing *vaa.VAA
 		if existing, err = vaa.Unmarshal(vb); err != nil {
-			panic("failed to unmarshal VAA from db")
+			// The stored bytes cannot be decoded (e.g. a VAA with an empty payload, which Marshal emits
+			// but Unmarshal rejects). Log and drop the observation instead of crashing the process.
+			p.logger.Error("failed to unmarshal VAA from db, dropping observation",
+				zap.String("message_id", v.MessageID()),
+				zap.Error(err),
+			)
+			return
 		}
 
 		if k.Timestamp.Sub(existing.Timestamp) > settlementTime {
